@@ -8,6 +8,7 @@ for d in /var/tmp/seeded-pending/$id-$rnd/*/; do
   i=$(basename $d)
   [ -f $d/patch.diff ] || continue
   if [ "$rnd" = a ]; then t=seeded/$id-$i; else t=seeded/$id-$rnd$i; fi
+  while [ -f /var/tmp/repo.busy ]; do sleep 20; done
   mkdir -p $t; cp $d/patch.diff $d/demo.cpp $d/meta.json $t/ 2>/dev/null
   if python3 tools/seedtest.py validate $t > /dev/null 2>&1; then
     python3 tools/seedtest.py detect $t $id | tail -1
